@@ -22,7 +22,9 @@
 from __future__ import annotations
 
 from multiprocessing import RLock
+from multiprocessing.context import get_spawning_popen
 from typing import TYPE_CHECKING
+from typing import Any
 from typing import Literal
 from typing import cast
 from typing import overload
@@ -77,6 +79,38 @@ class MemoryFullCache(BaseFullCache):
             self.__data = get_multi_processing_manager().dict()
         else:
             self.__data = {}
+
+    def __getstate__(self) -> dict[str, Any]:
+        if get_spawning_popen() is not None:
+            # The cache is being sent to a child process that is being spawned:
+            # the locks, counters and shared dictionaries are shared with it.
+            return self.__dict__
+
+        # Otherwise, the locks, the synchronized counters and the manager dictionaries
+        # cannot be pickled: pickle the __init__ arguments and the cached data
+        # so as to create an independent copy of the cache when unpickling.
+        return {
+            "tolerance": self._tolerance,
+            "name": self.name,
+            "is_memory_shared": self.__is_memory_shared,
+            "hashes_to_indices": dict(self._hashes_to_indices),
+            "max_index": self._max_index.value,
+            "last_accessed_index": self._last_accessed_index.value,
+            "data": dict(self.__data),
+        }
+
+    def __setstate__(self, state: StrKeyMapping) -> None:
+        if "hashes_to_indices" not in state:
+            self.__dict__.update(state)
+            return
+
+        self.__class__.__init__(
+            self, state["tolerance"], state["name"], state["is_memory_shared"]
+        )
+        self._hashes_to_indices.update(state["hashes_to_indices"])
+        self._max_index.value = state["max_index"]
+        self._last_accessed_index.value = state["last_accessed_index"]
+        self.__data.update(state["data"])
 
     def _copy_empty_cache(self) -> MemoryFullCache:
         return MemoryFullCache(self._tolerance, self.name, self.__is_memory_shared)
